@@ -417,6 +417,16 @@ func c18BytesCheck(c *Ctx, cs c18BytesCase) *Failure {
 		}
 		return "", false
 	}
+	// every entry point, with and without a lookup function (nil means: nothing to inherit from)
+	if m0, err0 := dotenv.UnmarshalBytesWithLookup([]byte(cs.Src), nil); err0 == nil && m0 == nil {
+		return failf("c18:nil-map-without-error", "%q (no lookup): nil map and nil error", cs.Src)
+	}
+	if m0, err0 := dotenv.UnmarshalWithLookup(cs.Src, nil); err0 == nil && m0 == nil {
+		return failf("c18:nil-map-without-error", "%q (UnmarshalWithLookup, no lookup): nil map and nil error", cs.Src)
+	}
+	if m0, err0 := dotenv.ParseWithLookup(strings.NewReader(cs.Src), nil); err0 == nil && m0 == nil {
+		return failf("c18:nil-map-without-error", "%q (ParseWithLookup, no lookup): nil map and nil error", cs.Src)
+	}
 	m, err := dotenv.UnmarshalBytesWithLookup([]byte(cs.Src), lookup)
 	if err == nil && m == nil {
 		return failf("c18:nil-map-without-error", "%q: nil map and nil error", cs.Src)
